@@ -157,6 +157,17 @@ def run(tier, seed, replay=None):
             trees.append(("boundary", ("un", "neg", ("c", w(a)))))
         trees.append(("boundary", ("un", "not", ("c", 0))))
         trees.append(("boundary", ("un", "not", ("c", 1))))
+        # nested constant comparisons: only the root of a maximal constant sub-tree is rewritten by OptimiseExpr,
+        # the comparisons below it stay folded (regression: seed 3, ((a >= b) >= (0 > c)) with overflowing differences)
+        trees.append(("nested", ("bin", "ge", ("bin", "ge", ("bin", "plus", ("c", 0xFFFFFFED), ("c", 0x80000000)),
+                                                  ("bin", "plus", ("c", 0xFFFFFFB3), ("c", 4294967214))),
+                                 ("bin", "gr", ("c", 0), ("bin", "plus", ("c", 2147483646), ("c", 2))))))
+        ex = [0, 1, w(-1), 0x7FFFFFFF, 0x80000000, 65536]
+        for o1 in REL:
+            for o2 in REL:
+                a, b, c2, d = (r.choice(ex) for _ in range(4))
+                trees.append(("nested", ("bin", o2, ("bin", o1, ("c", a), ("c", b)), ("bin", o1, ("c", c2), ("c", d)))))
+                trees.append(("nested", ("un", "not", ("bin", o2, ("bin", o1, ("c", a), ("c", b)), ("c", r.below(2))))))
         ntrees = 500 if tier == "quick" else 50000
         if os.environ.get("C07_NTREES"):
             ntrees = int(os.environ["C07_NTREES"])
